@@ -27,7 +27,7 @@ RULE = (
 )
 ASSUMPTIONS = [
     "forms the MLS grammar does not define (a^b^c, a<b<c, a * -b) are never printed",
-    "string escapes are outside the domain (whether \"\\n\" is one or two characters is not fixed by docs or callers)",
+    "string literals may contain the escape sequences \\\" \\\\ \\n \\t; the parsed value may keep them verbatim or decode them (not fixed by docs or callers)",
     "value-equal groupings such as (-a)*b for -a*b are accepted: the oracle is evaluation, as the statement says",
     "evaluation points where the reference itself is within 1e-6 of a branch flip or non-finite are redrawn",
 ]
@@ -199,8 +199,11 @@ def check_literal(ctx, case):
         want = txt == "true"
         ok = type(v) is bool and v == want
     else:
+        # the value is the text between the delimiters; whether escape sequences are kept verbatim
+        # (what pymoca does) or decoded is not fixed by docs or callers: both readings are accepted
         want = txt[1:-1]
-        ok = type(v) is str and v == want
+        decoded = want.replace('\\"', '"').replace("\\n", "\n").replace("\\t", "\t").replace("\\\\", "\\")
+        ok = type(v) is str and v in (want, decoded)
     if not ok:
         raise Violation("literal_value:" + kind, "literal %s parsed to %r (%s), expected %r" % (txt, v, type(v).__name__, want))
     return dict(nontrivial=len(txt) > 2, labels=["literal:" + kind], sample={"literal": txt})
@@ -253,8 +256,10 @@ def literal_case(draw):
         return {"lit": t, "kind": "real"}
     if kind == "bool":
         return {"lit": draw(st.sampled_from(["true", "false"])), "kind": "bool"}
-    body = draw(st.text(st.characters(min_codepoint=32, max_codepoint=126, blacklist_characters='"\\'), max_size=20))
-    return {"lit": '"%s"' % body, "kind": "str"}
+    # plain printable characters plus the escape sequences \" \\ \n \t (anywhere, incl. at the end)
+    plain = st.text(st.characters(min_codepoint=32, max_codepoint=126, blacklist_characters='"\\'), max_size=6)
+    parts = draw(st.lists(st.one_of(plain, st.sampled_from(['\\"', "\\\\", "\\n", "\\t"])), max_size=5))
+    return {"lit": '"%s"' % "".join(parts), "kind": "str"}
 
 
 def shard(ctx):
